@@ -1434,6 +1434,9 @@ class AnsiString:
             self._s = obj._s
             self._fmts = obj._fmts
             return self
+        elif obj is self:
+            # Nothing was replaced - still need to return a new object
+            return self.copy()
         else:
             return obj
 
